@@ -79,7 +79,7 @@ class Variation:
 
     def __init__(self, rng=None, *, st_perm=None, sess_perm=None, shift=0, evse_kinds=None, dict_shuffle=True,
                  vtypes=True, constraints="none", con_perm=False, mutate=False, twostage=False,
-                 store_hist=True, est_seed=0):
+                 store_hist=True, est_seed=0, verbose=False, queue_form="ctor", late_scheduler=False):
         self.rng = rng or random.Random(0)
         self.st_perm, self.sess_perm, self.shift = st_perm, sess_perm, shift
         self.evse_kinds = evse_kinds
@@ -87,6 +87,8 @@ class Variation:
         self.constraints, self.con_perm = constraints, con_perm
         self.mutate, self.twostage, self.store_hist = mutate, twostage, store_hist
         self.est_seed = est_seed
+        # how the simulator is put together (documented alternatives; none may matter)
+        self.verbose, self.queue_form, self.late_scheduler = verbose, queue_form, late_scheduler
 
     def describe(self):
         return {k: v for k, v in self.__dict__.items() if k != "rng"}
@@ -189,11 +191,62 @@ def build_network(start, var, cls=RecordingNetwork):
     return net
 
 
-def make_battery(b, var):
+def make_queue(events, form, rng):
+    """The same pending set handed over in the documented ways: constructor list, add_events in one or
+    two batches, add_event one by one (in list order or shuffled)."""
+    if form == "ctor":
+        return EventQueue(events)
+    if form == "restored":      # the queue of the scenario, written to JSON and loaded back before the simulation
+        return EventQueue.from_json(EventQueue(events).to_json())
+    if form == "reused":        # a queue object with a past: it served later periods before, was drained, is refilled
+        q = EventQueue([RecomputeEvent(7), RecomputeEvent(3)])
+        q.get_current_events(5)
+        q.get_event()
+        q.add_events(list(events))
+        return q
+    q = EventQueue()
+    ev = list(events)
+    if form == "add_events":
+        q.add_events(ev)
+    elif form == "two_batches":
+        h = len(ev) // 2
+        q.add_events(ev[h:])
+        q.add_events(ev[:h])
+    elif form == "add_event":
+        for e in ev:
+            q.add_event(e)
+    else:  # "shuffled"
+        rng.shuffle(ev)
+        for e in ev:
+            q.add_event(e)
+    return q
+
+
+def make_battery(b, var, i=0):
     cap, init, pw = b["cap"] / KWH, b["init"] / KWH, b["pw"] / 1000.0
     if var.twostage:
-        return Linear2StageBattery(cap * 1.5 + 1e-9, init, pw, transition_soc=0.6)
+        # every documented flavour of the two-stage model (the choice depends on the session only, so an
+        # interrupted run and its twin use the same batteries)
+        flavour = i % 3
+        if flavour == 0:
+            return Linear2StageBattery(cap * 1.5 + 1e-9, init, pw, transition_soc=0.6)
+        if flavour == 1:
+            return Linear2StageBattery(cap * 1.2 + 1e-9, init, pw, transition_soc=0.5, charge_calculation="stepwise")
+        return Linear2StageBattery(cap * 1.1 + 1e-9, init, pw)
     return Battery(cap, init, pw)
+
+
+def _scalars(obj):
+    """The scalar attributes of an object (what a faithful serialisation has to carry)."""
+    out = {"__class__": type(obj).__name__}
+    for k, v in sorted(vars(obj).items()):
+        if isinstance(v, (bool, int, float, str, type(None))):
+            out[k] = v
+        elif isinstance(v, np.generic):
+            out[k] = v.item()
+        elif isinstance(v, (list, tuple, np.ndarray)) and all(isinstance(x, (int, float, np.generic)) for x in np.ravel(v)):
+            out[k] = [float(x) for x in np.ravel(v)]
+    return out
 
 
 class Replay:
@@ -239,7 +292,7 @@ class Replay:
                 est = x["dep"]
             self.est[i0 + 1] = est + self.k
             ev = EV(x["arr"] + self.k, x["dep"] + self.k, x["req"] / KWH, sid(x["st"]), vid(i0 + 1),
-                    make_battery(x, var), estimated_departure=est + self.k)
+                    make_battery(x, var, i0), estimated_departure=est + self.k)
             self.evs[i0 + 1] = ev
             events.append(PluginEvent(x["arr"] + self.k, ev))
         rec = [RecomputeEvent(r + self.k) for r in st["recomp"]]
@@ -249,8 +302,14 @@ class Replay:
         else:
             events = events + rec
         self.sched = ScriptedScheduler(self, st["mr"])
-        self.sim = Simulator(self.net, self.sched, EventQueue(events), START, period=self.T, verbose=False,
-                             store_schedule_history=var.store_hist)
+        queue = make_queue(events, var.queue_form, var.rng)
+        if var.late_scheduler:      # built without a scheduler, which is attached afterwards (update_scheduler)
+            self.sim = Simulator(self.net, None, queue, START, period=self.T, verbose=var.verbose,
+                                 store_schedule_history=var.store_hist)
+            self.sim.update_scheduler(self.sched)
+        else:
+            self.sim = Simulator(self.net, self.sched, queue, START, period=self.T, verbose=var.verbose,
+                                 store_schedule_history=var.store_hist)
 
     # ---- helpers ----------------------------------------------------------------------
     def _next(self, *kinds):
@@ -611,18 +670,22 @@ class Replay:
         for i in self.evs:
             ev = self.live_ev(i)
             evs[i] = (ev.energy_delivered, ev.current_charging_rate, ev._battery._current_charge,
-                      ev._battery._current_charging_power, ev.station_id)
+                      ev._battery._current_charging_power, ev.station_id, _scalars(ev), _scalars(ev._battery))
         return {
             "t": sim.iteration, "resolve": sim._resolve, "lastUpd": sim._last_schedule_update,
             "pilots": sim.pilot_signals.tolist(), "rates": sim.charging_rates.tolist(), "peak": float(sim.peak),
             "queue": q, "occ": self.impl_occ(), "evhist": self.impl_evhist(), "seen": sorted(sim.ev_history),
             "evs": evs, "evse_pilot": [float(sim.network._EVSEs[sid(s)].current_pilot) for s in range(1, self.ns + 1)],
             "schedhist": sorted(sim.schedule_history) if sim.schedule_history is not None else None,
+            "evses": [_scalars(sim.network._EVSEs[sid(s)]) for s in range(1, self.ns + 1)],
+            "sim": {k: v for k, v in _scalars(sim).items() if k not in ("__class__",)},
         }
 
     # ---- the driver -------------------------------------------------------------------------
     def run(self):
-        with warnings.catch_warnings():
+        import contextlib
+        import io
+        with warnings.catch_warnings(), contextlib.redirect_stdout(io.StringIO()):
             warnings.simplefilter("ignore")
             self._prepare_expected()
             return self._run()
@@ -693,7 +756,7 @@ class Replay:
             self._consume()
 
     def _crashed_before(self):
-        return any(x["a"] in ("raise", "reject") for x in self.bhv[: self.cur])
+        return any(x["a"] in ("raise", "reject", "dumpload") for x in self.bhv[: self.cur])
 
     def dump_load(self, snap):
         js = self.sim.to_json()
@@ -843,11 +906,13 @@ class StepReplay(Replay):
         if mr:
             sched = BaseAlgorithm()
             sched.max_recompute = mr
-        self.sim = Simulator(self.net, sched, self.sim.event_queue, START, period=self.T, verbose=False,
+        self.sim = Simulator(self.net, sched, self.sim.event_queue, START, period=self.T, verbose=self.var.verbose,
                              store_schedule_history=self.var.store_hist)
 
     def run(self):
-        with warnings.catch_warnings():
+        import contextlib
+        import io
+        with warnings.catch_warnings(), contextlib.redirect_stdout(io.StringIO()):
             warnings.simplefilter("ignore")
             self._prepare_expected()
             return self._run_steps()
